@@ -88,7 +88,7 @@ func (k Keeper) AssignMembersForSigning(
 	if err != nil {
 		return types.AssignedMembers{}, err
 	}
-	if err := verifFailpoint("tss.AssignMembersForSigning.afterDequeueDEs"); err != nil {
+	if err := verifFailpoint(ctx, "tss.AssignMembersForSigning.afterDequeueDEs"); err != nil {
 		return types.AssignedMembers{}, err
 	}
 
